@@ -117,6 +117,7 @@ static std::string run_case(const toks_t& t)
         if (c == "c") {
           int i = std::stoi(o[1]);
           bool ok = o[2] == "1";
+          int failmode = ok ? 0 : (o[2] == "2" ? 2 : 1);      // c:i:0 fails at once, c:i:2 fails late (see verif_sandbox.hpp)
 #ifdef LIFE_DYLIB
           bool r = sb[i]->create_sandbox("libc.so.6");
 #elif defined(LIFE_NOOP)
@@ -124,11 +125,11 @@ static std::string run_case(const toks_t& t)
 #else
 #  ifdef LIFE_NO_FIXED_BASE
           Sbx::fixed_base_hint = 0;
-          bool r = sb[i]->create_sandbox(&g_libs[i], !ok);
+          bool r = sb[i]->create_sandbox(&g_libs[i], failmode);
           if (r) g_actual_base[i] = sb[i]->get_sandbox_impl()->region_base();
 #  else
           Sbx::fixed_base_hint = slot_base_of(i);
-          bool r = sb[i]->create_sandbox(&g_libs[i], !ok);
+          bool r = sb[i]->create_sandbox(&g_libs[i], failmode);
           Sbx::fixed_base_hint = 0;
 #  endif
 #endif
@@ -236,8 +237,17 @@ static std::string run_case(const toks_t& t)
           fill_from<100>(*sb[i], extra, n);
           out += "fill=ok";
         } else if (c == "u") {
-          owners[std::stoi(o[1])].unregister();
+          int j = std::stoi(o[1]);
+#ifdef LIFE_NOOP
+          owners[j].unregister();
           out += "u=ok";
+#else
+          // whether the back end was asked to release the entry point (it must not be outside the created window)
+          int before = own_sb[j] >= 0 ? sb[own_sb[j]]->get_sandbox_impl()->unregister_calls : 0;
+          owners[j].unregister();
+          int after = own_sb[j] >= 0 ? sb[own_sb[j]]->get_sandbox_impl()->unregister_calls : 0;
+          out += std::string("u=ok:be") + (after > before ? "1" : "0");
+#endif
         } else if (c == "mc") {
           int j = std::stoi(o[1]), j2 = std::stoi(o[2]);
           if (j == j2 || !owners[j].is_unregistered()) { out += "mc=skip"; }
